@@ -256,6 +256,14 @@ def run(tier, seed):
     for rep in tlc.validate_traces("Trace_C02.tla", shards, jobs=16, heap="3g"):
         cx.add_report(rep)
         cx.cov["invariant_evaluations"] = cx.cov.get("invariant_evaluations", 0) + rep["extra"]["nchecked"]
+    for sh in shards:
+        if any('"fn": "Iabc"' in ln and '"generic"' in ln for ln in open(sh)):
+            cx.selftest_corruption("Trace_C02.tla", sh, lambda ev: ev["y"] if ev["fn"] == "Iabc" and ev["cls"] == "generic" and ev["role"] == "base" else None,
+                                   "Definition")
+            break
+    for ev in evs:
+        if ev["cls"] in ("near6", "kallenNear8", "physical", "equalLarge") and len(cx.cov["samples"]) < 5:
+            cx.sample({"fn": ev["fn"], "class": ev["cls"], "args": [core.dy(a) for a in ev["a"]], "y": core.dy(ev["y"]), "role": meta[ev["id"]]["role"]})
     for ev in evs:
         cx.evaluations += 1
         cx.distinct.add((ev["fn"], ev["cls"]))
